@@ -1733,7 +1733,7 @@ theorem walk_linked {P : Prims} (hP : PushOne P) {t : List Desc} (hq : wireLinks
     (hod : o.descs = s.descs.reverse) (hol : o.links = s.links.reverse)
     (hov : ∀ l, s.vals.head? = some l → o.vals = l.reverse)
     (hlinks : ∀ l ∈ o.links, ∃ p id, l.2 < p ∧ p < l.1 ∧ C07.IsBitmapOp id ∧ o.descs[p]? = some (.oper id)) :
-    ∃ w, Linked t o w := by
+    ∃ w, Linked t o w ∧ ∀ l ∈ s.vals, l.length = s.descs.length := by
   unfold wireLinksOK at hq
   cases habs : absList t {} with
   | none => rw [habs] at hq; cases hq
@@ -1765,8 +1765,8 @@ theorem walk_linked {P : Prims} (hP : PushOne P) {t : List Desc} (hq : wireLinks
     obtain ⟨ns, w', e, hr', g⟩ := sim.2 o {} hf hw0 hb
     dsimp only at e
     have hn : w'.next = o.vals.length := by rw [hr'.next, ← hlen, hvals]; simp
-    refine ⟨{ nodes := ns, st := w' }, by unfold wireRaw; rw [e], hn, by rw [hod, hvals]; simp [hlen], g, hnoA,
-      hr'.tabS, ?_⟩
+    refine ⟨{ nodes := ns, st := w' }, ⟨by unfold wireRaw; rw [e], hn, by rw [hod, hvals]; simp [hlen], g, hnoA,
+      hr'.tabS, ?_⟩, sim.1.1.al⟩
     intro q hq
     rw [hol] at hq
     exact hr'.tabC q (List.mem_reverse.mp hq)
